@@ -24,8 +24,12 @@
 (* cfg: [net, wt, acct] the wallet was created with, ms (multisig wallet   *)
 (*      whose other cosigners are given as account public keys: one        *)
 (*      account, one witness type, one network), cos (own cosigner index), *)
-(*      watch (created from an account public key: no private key, one     *)
-(*      account, one witness type, one network).                           *)
+(*      watch (the wallet's origin is an ACCOUNT key - public: watch-only, *)
+(*      or private - instead of a master key: it can derive M/change/index *)
+(*      below that key only: one account, one witness type, one network;   *)
+(*      any other request has no answer from its key material and must be  *)
+(*      refused).  Origins with a master key (seed, mnemonic, extended     *)
+(*      private master key) serve every witness type, account and network. *)
 (*                                                                         *)
 (* An action is a public call  a = [op, net, wt, acct, ch, n, idx, form,   *)
 (* acctin] (form: how change and index were spelled, "path" | "args";      *)
